@@ -263,6 +263,7 @@ def _c11_runs(tier):
           Run(C(sse2=0, **MIN), "harness/p_c11.c", ["--mode=ops", "--setbits=24"], group="ops"),
           Run(C(thread_safe=1), "harness/p_c11.c", ["--mode=ops", "--setbits=24"], group="ops"),
           Run(C(), "harness/p_c11.c", ["--mode=illdim"], group="illdim"),
+          Run(C(), "harness/p_c11.c", ["--mode=lifecycle"], group="lifecycle"),
           Run(C(**MIN), "harness/p_c11.c", ["--mode=rec"], group="rec")]
     if tier == "thorough":
         rs.append(Run(C(simd="native", **MIN), "harness/p_c11.c", ["--mode=ops", "--setbits=24"], group="ops"))
